@@ -31,7 +31,8 @@ CONSTANTS Tables,       \* user table names
           FlushSteps,   \* TRUE: flush is one step per page plus header (crash points of C04)
           CrashAt,      \* subset of {"idle", "wal", "flush"}: where Crash is enabled
           FixDeleteLSN, \* TRUE: a delete takes a fresh LSN (repaired code)
-          FixReplayLSN  \* TRUE: replay never moves the LSN counter backwards (repaired code)
+          FixReplayLSN, \* TRUE: replay never moves the LSN counter backwards (repaired code)
+          FixReplayRoot \* TRUE: replay of an insert that moves its table's root updates the catalog itself (repaired code)
 
 VARIABLES disk, dhdr, cache, mhdr, walD, torn, walU, pc,
           abs, pend, cands, taint, scope,
@@ -363,7 +364,7 @@ Crash(keep) ==
                nd == pc.i + (IF comp THEN 1 ELSE 0)
            IN /\ walD' = IF comp THEN Append(walD, pc.recs[pc.i + 1]) ELSE walD
               /\ torn' = (keep /\ walU = <<"len">>)
-              /\ taint' = IF EndsInsideRootMove(nd, pc.recs) THEN taint \cup {"rootmove-record-cut"} ELSE taint
+              /\ taint' = IF ~FixReplayRoot /\ EndsInsideRootMove(nd, pc.recs) THEN taint \cup {"rootmove-record-cut"} ELSE taint
         /\ cands' = <<abs>> \o pend
         /\ UNCHANGED scope
      \/ /\ pc.k = "flush" /\ keep
@@ -386,9 +387,17 @@ Replay(st, h, d, i) ==
       n == Rd(st.c, d, r.pg)
   IN IF r.lsn <= n.lsn THEN Replay(st, h1, d, i + 1) ELSE
      CASE r.op = "ins" ->
-            LET x == InsertKey(st, d, r.pg, r.k, r.lsn, r.v) IN
-            IF x.err = "broken" THEN [c |-> x.st.c, nx |-> x.st.nx, h |-> h1, st |-> "fail"]
-            ELSE Replay(x.st, [h1 EXCEPT !.lastKey = @ + 1], d, i + 1)
+            LET x == InsertKey(st, d, r.pg, r.k, r.lsn, r.v)
+                \* moveCatalogRoot: the catalog row that names the old root follows the redone split
+                moved == FixReplayRoot /\ x.root # r.pg
+                P(y) == y.v.tag = "P" /\ y.v.b = r.pg
+                cp == IF moved THEN FirstPageWith(x.st.c, d, h1.ptRoot, P) ELSE 0
+                st2 == IF cp = 0 THEN x.st ELSE
+                       LET n0 == Rd(x.st.c, d, cp)
+                           cell == CHOOSE y \in SeqToSet(n0.cells) : ~y.d /\ P(y) /\ \A z \in SeqToSet(n0.cells) : (~z.d /\ P(z)) => y.k <= z.k
+                       IN [x.st EXCEPT !.c = Upd(x.st.c, cp, [SetCell(n0, cell.k, LAMBDA y : [y EXCEPT !.v = PV(y.v.a, x.root)]) EXCEPT !.lsn = r.lsn])]
+            IN IF x.err = "broken" THEN [c |-> x.st.c, nx |-> x.st.nx, h |-> h1, st |-> "fail"]
+               ELSE Replay(st2, [h1 EXCEPT !.lastKey = @ + 1], d, i + 1)
        [] r.op = "upd" ->
             IF n.kind = "L" /\ HasKey(n.cells, r.k)
             THEN Replay([st EXCEPT !.c = Upd(st.c, r.pg, [SetCell(n, r.k, LAMBDA x : [x EXCEPT !.v = r.v]) EXCEPT !.lsn = r.lsn])], h1, d, i + 1)
